@@ -209,6 +209,9 @@ def linbasex_transform_full(IM, basis_dir=None, proj_angles=[0, np.pi/2],
         raise ValueError('Forward "linbasex" transform not implemented')
 
     IM = np.atleast_2d(IM)
+    if not np.issubdtype(IM.dtype, np.floating):
+        # (scipy's rotate() would round to the integer input type)
+        IM = IM.astype(float)
 
     rows, cols = IM.shape
 
